@@ -170,3 +170,44 @@ pub fn guarded<T>(f: impl FnOnce() -> T + std::panic::UnwindSafe) -> Result<T, S
 pub fn quiet_panics() {
     std::panic::set_hook(Box::new(|_| {}));
 }
+
+/// Inverse of `esc`.
+pub fn unesc(s: &str) -> String {
+    let mut out = String::new();
+    let mut it = s.chars().peekable();
+    while let Some(c) = it.next() {
+        if c != '\\' {
+            out.push(c);
+            continue;
+        }
+        let mut hex = String::new();
+        for d in it.by_ref() {
+            if d == ';' {
+                break;
+            }
+            hex.push(d);
+        }
+        if hex != "e" {
+            if let Some(ch) = u32::from_str_radix(&hex, 16).ok().and_then(char::from_u32) {
+                out.push(ch);
+            }
+        }
+    }
+    out
+}
+
+/// Cases of a replay file: every line `CASE\t<id>\t<N|T>\t<kind>\t<fields…>` of a replay report
+/// written by the runner, or a raw case line `<id>\t<N|T>\t<kind>\t<fields…>` (corpus files).
+/// Returns (kind, unescaped fields) per case.
+pub fn replay_cases(path: &str) -> Vec<(String, Vec<String>)> {
+    let text = std::fs::read_to_string(path).unwrap_or_default();
+    let mut out = Vec::new();
+    for line in text.lines() {
+        let line = line.strip_prefix("CASE\t").unwrap_or(line);
+        let parts: Vec<&str> = line.split('\t').collect();
+        if parts.len() >= 3 && (parts[1] == "N" || parts[1] == "T") {
+            out.push((parts[2].to_string(), parts[3..].iter().map(|f| unesc(f)).collect()));
+        }
+    }
+    out
+}
